@@ -263,8 +263,12 @@ bool cmb_event_execute_next(void)
         return false;
     }
 
-    /* Pull off the next event and decode it */
-    struct event_peek *tmp = (struct event_peek *)cmi_hashheap_dequeue(event_queue);
+    /*
+     * Pull off the next event and decode it. Take a copy, the location in the
+     * heap is temporary and the heap may be reallocated if waking up waiters
+     * makes the event queue grow.
+     */
+    struct event_peek tmp = *(struct event_peek *)cmi_hashheap_dequeue(event_queue);
 
     /* Advance clock to time of the next event */
     const double new_time = event_queue->heap[0].dsortkey;
@@ -272,12 +276,12 @@ bool cmb_event_execute_next(void)
     sim_time = new_time;
 
     /* Schedule wakeup events for any processes waiting for this to happen */
-    if (!cmi_slist_is_empty(&(tmp->waiters))) {
-        wake_event_waiters(&(tmp->waiters), CMB_PROCESS_SUCCESS);
+    if (!cmi_slist_is_empty(&(tmp.waiters))) {
+        wake_event_waiters(&(tmp.waiters), CMB_PROCESS_SUCCESS);
     }
 
     /* Execute the event */
-    (*tmp->action)(tmp->subject, tmp->object);
+    (*tmp.action)(tmp.subject, tmp.object);
 
     return true;
 }
